@@ -10,9 +10,17 @@ import (
 	"github.com/vimeo/dials/zzverif"
 )
 
+// embedded in the element struct, with an unexported field ahead of the exported ones
+type C20Base struct {
+	rev   int
+	Name  string
+	Owner string
+}
+
 type c20backend struct {
 	Host string
 	Port int16
+	C20Base
 }
 
 type c20cfgL struct {
@@ -39,6 +47,10 @@ func (s *c20lister) make(t *dials.Type, mode int) reflect.Value {
 		sl := reflect.MakeSlice(f.Type(), 1, 1)
 		sl.Index(0).FieldByName("Host").SetString("h")
 		sl.Index(0).FieldByName("Port").SetInt(int64(s.port))
+		// Owner is wherever the mangler list put it: hoisted, or inside the embedded struct
+		if o := sl.Index(0).FieldByName("Owner"); o.IsValid() {
+			o.SetString("ow")
+		}
 		f.Set(sl)
 	}
 	return out
@@ -58,7 +70,11 @@ func (s *c20lister) Watch(ctx context.Context, t *dials.Type, wa dials.WatchArgs
 // elements arrive unchanged; initially and on a later update.
 func HarnessC20Slices() {
 	inner := &c20lister{mode: zzverif.Choose("initial", 3), port: zzverif.Int16("port")}
-	src := NewTransformingSource(inner, transform.NewAliasMangler(common.DialsTagName))
+	var m transform.Mangler = transform.NewAliasMangler(common.DialsTagName)
+	if zzverif.Choose("mangler", 2) == 1 {
+		m = transform.AnonymousFlattenMangler{}
+	}
+	src := NewTransformingSource(inner, m)
 	ctx, cancel := context.WithCancel(context.Background())
 	defer cancel()
 	def := c20cfgL{Backends: []c20backend{{Host: "d0", Port: 1}, {Host: "d1", Port: 2}}, Name: "n"}
@@ -76,6 +92,7 @@ func HarnessC20Slices() {
 			zzverif.Assert(len(got) == 0, "C20 "+when+": an explicitly empty slice of structs reported by a wrapped source did not override the lower layer (arrived as unset)")
 		case 2:
 			zzverif.Assert(len(got) == 1 && got[0].Host == "h" && got[0].Port == inner.port, "C20 "+when+": the elements reported by a wrapped source did not arrive unchanged")
+			zzverif.Assert(len(got) == 1 && got[0].Owner == "ow", "C20 "+when+": a leaf of a struct embedded in the element (declared after an unexported field) did not arrive")
 		}
 	}
 	chk(inner.mode, "initial value")
